@@ -1,12 +1,13 @@
 import GSProofs.C15
-import GSProofs.Lemmas.MsgQueueOverlap
+import GSProofs.Lemmas.MsgQueueOverlap3
 /-!
 # C15 while two queues of one peer overlap — the ledger modulo the other queue's bytes
 
 `GS.C15.SoloReachable` (C15.lean) forbids EVERY allocator call on the queue's own peer by another
 queue (`soloFrom`).  The known finding `overlap-release-wipes-successor` only needs one of them
-excluded: the other queue's `ReleasePeerMemory(p)` (AUDIT_3 #8, AUDIT_4 #11).  This file states the
-ledger under the weaker assumption, and proves it for the other queue's steps.
+excluded: the other queue's `ReleasePeerMemory(p)` (AUDIT_3 #8, AUDIT_4 #11).  This file states and proves
+the ledger under the weaker assumption: the other queue may `alloc` and `release` (its own reservations)
+on `p`'s allocator entry at any time.
 
 Ghost `o` = bytes the OTHER queue currently holds on `p`'s allocator entry.  The model's `Act.env op`
 does not say who owns a ticket, so ownership is by ticket range: this queue's tickets are
@@ -21,24 +22,25 @@ Full statement (S'), for every schedule `acts` with `overlapFrom` (own-peer `env
 `alloc` with a ticket `≥ B` or `release n` with `n ≤ o`; never `releasePeer p`) and `cleanFrom`:
     `AllocatedForPeer p = heldBuilders + heldInFlight + heldGranted + o`,  idle ⇒ `AllocatedForPeer p = o`.
 
-Proved here:
-* `overlap_env_step`, `overlap_alloc_own`, `overlap_release_own`: each step of the other queue (and of
-  other peers) preserves the invariant `OInv B s o` (= `LInv` modulo `o`, `Coupled` restricted to this
-  queue's tickets) from ANY state satisfying it, with the ghost replayed; builders and the message in
-  flight are untouched; an `alloc` moves `AllocatedForPeer p` and `o` by the same amount and leaves
-  `held` unchanged; a `release n` takes exactly `n` from the entry and from `o` (and may grant waiting
-  callers of either queue: their bytes go to `heldGranted` resp. `o`).
-* `overlap_episode_partial`, `overlap_idle_partial`, `overlap_then_solo_partial`: (S') for schedules of
-  the shape  solo history ++ any allowed episode of the other queue / other peers ++ (once the other
-  queue holds and awaits nothing) any further solo history — "partial" = this queue's own goroutine
-  and callers take no step DURING the episode.
-* `overlap_full_of_ownSteps`: (S') for ALL schedules follows from the one remaining obligation
-  `OwnSteps` (this queue's own steps preserve `OInv`, the ghost growing by the grants to the other
-  queue's tickets that the step's releases caused).  `OwnSteps` is NOT proved (it is `LInv`'s step
-  lemmas, MsgQueueLedger*.lean, re-done with the slack `o`); it is tested on mixed runs below.
-* counterexamples for the two exclusions that remain: `other_over_release_counterexample` (`n > o`),
-  `own_exit_wipes_other` (this queue's exit while `o > 0`); the third is C15.lean
-  `successor_wiped_counterexample` (`releasePeer p` by the other queue).
+Proved here ((S') in full; "partial" = under the schedule assumptions `overlapFrom` and `cleanFrom` just named):
+* `exactly_once_overlap_partial` — (S') for EVERY schedule with `overlapFrom` + `cleanFrom`, from
+  `messagequeue.New` with a fresh allocator: this queue's own steps (`build`, `wake`, `run`, `ack`,
+  `shutdown`), other peers, and the other queue's `alloc` / `release` on `p` interleaved in any order.
+  `idle_other_only_partial` (idle ⇒ `AllocatedForPeer p = o`), `exit_zero_overlap_partial`,
+  `closed_queue_empty_overlap_partial`.  With no own-peer `env` call at all this is `exactly_once_partial`.
+* the invariant is `OInv B s o` (= `LInv` modulo `o`, `Coupled` restricted to this queue's tickets);
+  `ownSteps` = every step of this queue preserves it (Lemmas/MsgQueueOverlap2/3.lean: the step lemmas of
+  MsgQueueLedger*.lean re-done with the slack), `overlap_env_step` = every allowed `Act.env` does.
+* one step of the other queue in detail: `overlap_alloc_own` (an `alloc` moves `AllocatedForPeer p` and
+  `o` by the same amount — `n` if granted at once, `0` if it has to wait — and leaves `held` unchanged),
+  `overlap_release_own` (a `release n` takes exactly `n` from the entry and from `o`; reservations it
+  lets through go to `o` (the other queue's tickets) or to this queue's `heldGranted`).
+* `overlap_episode_partial`, `overlap_idle_partial`, `overlap_then_solo_partial`: the special case
+  solo history ++ episode of the other queue ++ solo history, stated on `SoloReachable` (so that the
+  theorems of C15.lean/C16/C17 that start from `I` resume once the other queue is gone).
+* counterexamples for the two exclusions that remain besides C15.lean `successor_wiped_counterexample`
+  (`releasePeer p` by the other queue): `other_over_release_counterexample` (`n > o`),
+  `own_exit_wipes_other` (this queue's exit while `o > 0`: why the ghost restarts at 0).
 -/
 namespace GS.C15
 open GS.MQ GS.Alloc
@@ -231,26 +233,55 @@ theorem overlap_then_solo_partial {B : Nat} {s : MQ.State} (h : SoloReachable pi
 
 end
 
-/-! ## the remaining obligation, and (S') from it -/
+/-! ## this queue's own steps, and (S') for all schedules -/
 
-/-- THE REST (not proved): every step of this queue itself — `build`, `wake`, `run`, `ack`,
-    `shutdown` — preserves `OInv`, the ghost replayed by `otherAct` (it grows by the grants to the other
-    queue's tickets caused by this queue's releases; this queue's exit resets it to 0).  This is
-    `step_I` (MsgQueueReach) with the slack `o` threaded through MsgQueueLedger*.lean. -/
+/-- every step of this queue itself — `build`, `wake`, `run`, `ack`, `shutdown` — preserves `OInv`, the
+    ghost replayed by `otherAct` (it grows by the grants to the other queue's tickets caused by this
+    queue's releases; this queue's exit resets it to 0) -/
 def OwnSteps (B : Nat) (pick : Pick) : Prop :=
   ∀ (s : MQ.State) (o : Nat) (a : Act), OInv B s o → CN s → (∀ op, a ≠ .env op) →
     overlapAct B s o a = true → cleanAct s a = true → OInv B (step pick s a) (otherAct B pick s o a)
 
-/-- **(S') for all schedules, from `OwnSteps`.**  With the remaining obligation, on every schedule in
-    which the other queue never calls `ReleasePeerMemory(p)` (`overlapFrom`) and this queue's exit finds
-    no granted caller (`cleanFrom`): `AllocatedForPeer p = held + o` in every reachable state. -/
+theorem ownSteps {pick : Pick} (hp : Admissible pick) (B : Nat) : OwnSteps B pick := by
+  intro s o a h hcn hne hov hcl
+  have hB : ∀ tx, a = .build tx → s.nextTicket < B := by
+    intro tx he; subst he; simpa [overlapAct] using hov
+  by_cases hex : s.pc = .exiting ∧ ∃ ok, a = .ack ok
+  · obtain ⟨hpc, ok, rfl⟩ := hex
+    have hg : heldGranted s = 0 := by
+      simp only [cleanAct, hpc, beq_self_eq_true, Bool.not_true, Bool.false_or, beq_iff_eq] at hcl
+      exact hcl
+    have : otherAct B pick s o (.ack ok) = 0 := by simp [otherAct, hpc]
+    rw [this]
+    exact exit_oinv hp h hcn hpc hg ok
+  · have hpc : s.pc ≠ .exiting ∨ ∀ ok, a ≠ .ack ok := by
+      by_cases h1 : s.pc = .exiting
+      · right; intro ok he; exact hex ⟨h1, ok, he⟩
+      · left; exact h1
+    have key := own_step_oinv hp h hcn a hne hB hpc
+    have : otherAct B pick s o a
+        = o + amounts (forT B (grantsOf s.peer ((memOf (step pick s a).log).drop (memOf s.log).length))) := by
+      cases a with
+      | env op => exact absurd rfl (hne op)
+      | ack ok =>
+        have h1 : s.pc ≠ .exiting := by
+          rcases hpc with h1 | h1
+          · exact h1
+          · exact absurd rfl (h1 ok)
+        have : (s.pc == Pc.exiting) = false := by simpa using h1
+        simp only [otherAct, this, Bool.false_eq_true, if_false, newMem]
+      | build tx => rfl
+      | wake t => rfl
+      | run pw => rfl
+      | shutdown => rfl
+    rw [this]; exact key
+
+/-- (S') along a schedule, from any state with the invariant -/
 theorem overlap_full_of_ownSteps {pick : Pick} (hp : Admissible pick) {B : Nat} (hown : OwnSteps B pick) :
     ∀ (acts : List Act) (s : MQ.State) (o : Nat), OInv B s o → CN s →
       overlapFrom B pick s o acts = true → cleanFrom pick s acts = true →
-      OInv B (runActs pick s acts) (otherRun B pick s o acts) ∧
-      allocatedFor (runActs pick s acts).alloc (runActs pick s acts).peer
-        = held (runActs pick s acts) + otherRun B pick s o acts
-  | [], s, o, h, _, _, _ => ⟨h, h.ledger_held⟩
+      OInv B (runActs pick s acts) (otherRun B pick s o acts) ∧ CN (runActs pick s acts)
+  | [], s, o, h, hcn, _, _ => ⟨h, hcn⟩
   | a :: r, s, o, h, hcn, hov, hcl => by
     simp only [overlapFrom, cleanFrom, Bool.and_eq_true] at hov hcl
     have hstep : OInv B (step pick s a) (otherAct B pick s o a) := by
@@ -262,6 +293,80 @@ theorem overlap_full_of_ownSteps {pick : Pick} (hp : Admissible pick) {B : Nat} 
       | ack ok => exact hown s o _ h hcn (fun op he => by cases he) hov.1 hcl.1
       | shutdown => exact hown s o _ h hcn (fun op he => by cases he) hov.1 hcl.1
     exact overlap_full_of_ownSteps hp hown r _ _ hstep (step_cn pick hcn a) hov.2 hcl.2
+
+/-- states reachable, with the ghost `o`, by a schedule in which the other queue of the same peer never
+    calls `ReleasePeerMemory(p)`, releases only what it holds, uses tickets `≥ B` (`overlapFrom`), and this
+    queue's exit finds no granted caller (`cleanFrom`) -/
+def OverlapReachable (B : Nat) (pick : Pick) (peer mr mt mp : Nat) (s : MQ.State) (o : Nat) : Prop :=
+  ∃ acts : List Act, overlapFrom B pick (init peer mr mt mp) 0 acts = true ∧
+    cleanFrom pick (init peer mr mt mp) acts = true ∧
+    s = runActs pick (init peer mr mt mp) acts ∧ o = otherRun B pick (init peer mr mt mp) 0 acts
+
+section
+variable {pick : Pick} (hp : Admissible pick) {peer mr mt mp : Nat} (ht : mt < W) (hm : mp < W)
+include hp ht hm
+
+theorem OverlapReachable.inv {B : Nat} {s : MQ.State} {o : Nat} (h : OverlapReachable B pick peer mr mt mp s o) :
+    OInv B s o ∧ CN s := by
+  obtain ⟨acts, hov, hcl, rfl, rfl⟩ := h
+  exact overlap_full_of_ownSteps hp (ownSteps hp B) acts _ _ ((init_LInv ht hm).toO (Nat.zero_le _))
+    (fun _ => rfl) hov hcl
+
+/-- **(S') Exactly once, with a second queue of the same peer alive** — partial only in `overlapFrom`
+    (the other queue does not call `ReleasePeerMemory(p)` and releases only its own bytes) and `cleanFrom`.
+    In every reachable state the bytes the allocator accounts to the peer are the bytes THIS queue holds
+    (queued builders, message in flight, granted-not-yet-built) plus the bytes the OTHER queue holds. -/
+theorem exactly_once_overlap_partial {B : Nat} {s : MQ.State} {o : Nat}
+    (h : OverlapReachable B pick peer mr mt mp s o) :
+    allocatedFor s.alloc s.peer = heldBuilders s + heldInFlight s + heldGranted s + o :=
+  (h.inv hp ht hm).1.ledger
+
+theorem closed_queue_empty_overlap_partial {B : Nat} {s : MQ.State} {o : Nat}
+    (h : OverlapReachable B pick peer mr mt mp s o) (hc : s.closed = true) : s.builders = [] :=
+  (h.inv hp ht hm).2 hc
+
+/-- **Idle ⇒ only the other queue's bytes.** -/
+theorem idle_other_only_partial {B : Nat} {s : MQ.State} {o : Nat}
+    (h : OverlapReachable B pick peer mr mt mp s o) (hpc : s.pc = .idle)
+    (hb0 : ∀ b ∈ s.builders, b.empty = true) (hw : ∀ w ∈ s.waiters, w.answer ≠ some true) :
+    allocatedFor s.alloc s.peer = o := by
+  have h' := (h.inv hp ht hm).1
+  have hl := h'.ledger
+  have h1 : hb s.builders = 0 := by
+    have : ∀ (bs : List Builder), (∀ b ∈ bs, BInv b) → (∀ b ∈ bs, b.empty = true) → hb bs = 0 := by
+      intro bs
+      induction bs with
+      | nil => intros; rfl
+      | cons b r ih =>
+        intro hi he
+        rw [hb_cons, empty_accounted (hi b (by simp)) (he b (by simp)),
+          ih (fun x hx => hi x (List.mem_cons_of_mem _ hx)) (fun x hx => he x (List.mem_cons_of_mem _ hx))]
+    exact this _ h'.binv hb0
+  have h2 : heldInFlight s = 0 := heldInFlight_idle hpc
+  have h3 : grantedBytes s.waiters = 0 := by
+    unfold grantedBytes
+    have : s.waiters.filter (·.answer == some true) = [] := by
+      apply List.filter_eq_nil_iff.mpr
+      intro w hw'
+      have := hw w hw'
+      simpa using this
+    rw [this]; rfl
+  show tot s.alloc s.peer = o
+  omega
+
+/-- **Exit ⇒ zero** (and the other queue's bytes are gone with it: `own_exit_wipes_other`). -/
+theorem exit_zero_overlap_partial {B : Nat} {s : MQ.State} {o : Nat}
+    (h : OverlapReachable B pick peer mr mt mp s o) (hpc : s.pc = .exiting) (ok : Bool) :
+    allocatedFor (s.ack pick ok).alloc s.peer = 0 ∧ (s.ack pick ok).pc = .exited := by
+  have hinv : Alloc.Inv s.alloc := (h.inv hp ht hm).1.cpl.ainv
+  unfold State.ack
+  rw [hpc]
+  simp only
+  refine ⟨?_, trivial⟩
+  show allocatedFor ((s.allocStep pick (.releasePeer s.peer)).1.emit [Event.exitCallback]).alloc s.peer = 0
+  exact (releasePeer_own hp hinv s.peer).2.2.2
+
+end
 
 /-! ## the exclusions that remain are necessary -/
 
@@ -322,8 +427,8 @@ example : ∃ s ops acts, SoloReachable pickMin 0 1 (2^30) 3000 s ∧ s.nextTick
     [.ack true, .build { who := .response, req := 1, sub := 1, items := [.block 2 700 true] }],
     ⟨_, by decide, by decide, rfl⟩, by decide, by decide, by decide, by decide, by decide, by decide, by decide⟩
 
-/-- TEST (two sample runs, not a theorem) of `OwnSteps` / (S'): this queue's own steps interleaved with
-    the other queue's; after every prefix `AllocatedForPeer p = held + o` with the replayed ghost. -/
+/-- TEST (two sample runs; the theorem is `exactly_once_overlap_partial`): this queue's own steps interleaved
+    with the other queue's; after every prefix `AllocatedForPeer p = held + o` with the replayed ghost. -/
 def ledgerTrace (B : Nat) (pick : Pick) : MQ.State → Nat → List Act → List Bool
   | s, o, [] => [allocatedFor s.alloc s.peer == held s + o]
   | s, o, a :: r => (allocatedFor s.alloc s.peer == held s + o) :: ledgerTrace B pick (step pick s a) (otherAct B pick s o a) r
@@ -345,5 +450,27 @@ example : (ledgerTrace 100 pickMin (init 0 1 (2^30) 3000) 0 sampleRun1).all id =
     (ledgerTrace 100 pickMin (init 0 1 (2^30) 3000) 0 sampleRun2).all id = true ∧
     overlapFrom 100 pickMin (init 0 1 (2^30) 3000) 0 sampleRun2 = true := by
   refine ⟨by decide, by decide, by decide, by decide⟩
+
+/-- non-vacuity of `exactly_once_overlap_partial`: a prefix of `sampleRun1` — this queue has a message in
+    flight (1000) and a caller waiting, the other queue holds 1500 and has 800 waiting: 2500 = 1000 + 1500;
+    and the whole run (this queue's exit included) satisfies the schedule assumptions. -/
+example : ∃ s o, OverlapReachable 100 pickMin 0 1 (2^30) 3000 s o ∧ s.pc ≠ .exited ∧ heldInFlight s = 1000 ∧
+    s.waiters.length = 1 ∧ o = 1500 ∧ allocatedFor s.alloc s.peer = 2500 :=
+  ⟨runActs pickMin (init 0 1 (2^30) 3000) (sampleRun1.take 6),
+    otherRun 100 pickMin (init 0 1 (2^30) 3000) 0 (sampleRun1.take 6),
+    ⟨_, by decide, by decide, rfl, rfl⟩, by decide, by decide, by decide, by decide, by decide⟩
+
+example : ∃ s o, OverlapReachable 100 pickMin 0 1 (2^30) 3000 s o ∧ s.pc = .exited ∧ o = 0 :=
+  ⟨_, _, ⟨sampleRun1, by decide, by decide, rfl, rfl⟩, by decide, by decide⟩
+
+/-- the new assumption is weaker than `SoloReachable`'s (sample): the solo run of C15.lean's non-vacuity
+    example satisfies `overlapFrom` for any `B` above its number of builds, with ghost 0 -/
+example : soloFrom pickMin (init 0 1 (2^30) 700000)
+      [.build (sampleTx 0 1000), .run true, .ack true, .build (sampleTx 1 600000), .build (sampleTx 0 300000)] = true ∧
+    overlapFrom 3 pickMin (init 0 1 (2^30) 700000) 0
+      [.build (sampleTx 0 1000), .run true, .ack true, .build (sampleTx 1 600000), .build (sampleTx 0 300000)] = true ∧
+    otherRun 3 pickMin (init 0 1 (2^30) 700000) 0
+      [.build (sampleTx 0 1000), .run true, .ack true, .build (sampleTx 1 600000), .build (sampleTx 0 300000)] = 0 := by
+  refine ⟨by decide, by decide, by decide⟩
 
 end GS.C15
